@@ -419,6 +419,11 @@ def l6(ctx):
         ctx.instance('%s writes %s (%s)' % (key, f, how))
         if key not in allowed:
             ctx.violate(key, None, 'handle counter %s written (%s) outside new/Drop/clone/close' % (f, how), at=at, sig='write:' + f)
+    for key, f, at, how in field_writes(ctx, ('recv_blocking',)):
+        ctx.oblige(1)
+        ctx.instance('%s writes recv_blocking (%s)' % (key, how))
+        if key not in ('internal::ChannelInternal::<T>::new', 'internal::ChannelInternal::<T>::next_send', 'internal::ChannelInternal::<T>::next_recv'):
+            ctx.violate(key, None, 'wait-list kind flag recv_blocking written (%s) outside next_send/next_recv: a non-empty wait list could be mislabelled' % how, at=at, sig='write:recv_blocking')
     for key, f, at, how in field_writes(ctx, ('capacity',)):
         ctx.oblige(1)
         ctx.instance('%s writes capacity (%s)' % (key, how))
